@@ -20,7 +20,7 @@ func init() {
 			"(1) count before append — in d2graph.Object.Connect the new edge's index is computed (Edge.initIndex) on every path before the edge is appended to Graph.Edges, and in d2ir.Map.createEdge2 the edges are counted (GetEdges) before the new edge is appended to Map.Edges: counting after the append numbers from 1; Edge.Index of d2graph is written nowhere else on the compile path; " +
 			"(2) identity fields agree — the fields initIndex compares to decide that two connections are parallel are exactly the fields Edge.AbsID (with ArrowString) prints besides the index (Src, Dst, SrcArrow, DstArrow), each compared with the same field of the other edge: a field printed but not compared gives two connections the same ID, a field compared but not printed too; " +
 			"(3) EdgeID.Match compares the two indices with each other when both are given, and returns false from that comparison: otherwise an indexed reference hits every parallel connection; " +
-			"(4) in d2ir's _compileEdges the branch in which the lookup of a non-glob indexed ID found nothing reports an error before moving on.",
+			"(4) in d2ir's _compileEdges the branch in which the lookup of a non-glob indexed ID found nothing reports an error before moving on; (5) every function of d2ir that resolves a connection ID (EdgeID.resolve: underscores and common container) uses only the resolved ID and map afterwards; (6) the result of DeleteEdge for a `null` written with an index is examined (a missing index is an error there too), and DeleteEdge renumbers the later parallel connections (open finding: it does not).",
 		NotCovered: "that the numbers are consecutive for a given history (index arithmetic in d2ir.GetEdges / d2oracle renumbering); renumbering after deletes (C38); uniqueness of IDs across boards",
 		Technique:  "static analysis: must-precede on go/cfg, who-may-write, writer/reader field-set agreement, guarded error discipline",
 		Run:        runC11,
@@ -196,6 +196,119 @@ func runC11(c *core.Check) {
 			ok, why = false, fmt.Sprintf("AbsID prints {%s} besides the index but initIndex compares {%s}", names(printed), names(compared))
 		}
 		c.Decide(ok && len(compared) >= 2, "C11.identity-fields", "initIndex~AbsID", initIdx.Decl.Pos(), "compares {"+names(compared)+"}, the fields AbsID prints besides the index", "the parallel-connection test and the connection ID disagree ("+why+"): two connections of a board can get the same ID, or parallel connections are not numbered consecutively")
+	}
+
+	// (6) a null with an index that matches nothing is reported, and deletion keeps the numbering dense
+	if ce := mustFunc(c, "d2ir", "compiler", "_compileEdges"); ce != nil {
+		info := ce.Pkg.TypesInfo
+		nd := 0
+		ast.Inspect(ce.Decl.Body, func(n ast.Node) bool {
+			call, ok := n.(*ast.CallExpr)
+			if !ok || !core.IsCallTo(info, call, "d2ir.(*Map).DeleteEdge") {
+				return true
+			}
+			nd++
+			// the result is looked at (not an expression statement)
+			used := true
+			ast.Inspect(ce.Decl.Body, func(m ast.Node) bool {
+				if es, ok := m.(*ast.ExprStmt); ok && ast.Unparen(es.X) == ast.Expr(call) {
+					used = false
+				}
+				return true
+			})
+			key := "d2ir.(*compiler)._compileEdges:DeleteEdge-result"
+			if nd > 1 {
+				key = fmt.Sprintf("%s#%d", key, nd)
+			}
+			// inside the loop over matched edges (for _, e := range ea) the edge exists by construction
+			inMatched := false
+			ast.Inspect(ce.Decl.Body, func(m ast.Node) bool {
+				if rs, ok := m.(*ast.RangeStmt); ok && call.Pos() > rs.Body.Pos() && call.End() < rs.Body.End() && len(call.Args) == 1 && rs.Value != nil && rootIdent(info, call.Args[0]) == core.ObjOf(info, rs.Value) {
+					inMatched = true
+				}
+				return true
+			})
+			if inMatched {
+				c.Pass("C11.missing-index-error", key, call.Pos(), "deletes an edge that the lookup just returned")
+				return true
+			}
+			c.Decide(used, "C11.missing-index-error", key, call.Pos(), "the result of DeleteEdge is examined", "the result of DeleteEdge is dropped: `(a -> b)[5]: null` for a connection that does not exist is silently accepted")
+			return true
+		})
+	}
+	c.Rule("C11.delete-renumbers", "deleting a connection lowers the index of the later parallel connections (indices are assigned by counting)")
+	if de := mustFunc(c, "d2ir", "Map", "DeleteEdge"); de != nil {
+		info := de.Pkg.TypesInfo
+		renumbers := false
+		ast.Inspect(de.Decl.Body, func(n ast.Node) bool {
+			var lhs ast.Expr
+			switch x := n.(type) {
+			case *ast.IncDecStmt:
+				lhs = x.X
+			case *ast.AssignStmt:
+				if len(x.Lhs) == 1 && x.Tok != token.DEFINE {
+					lhs = x.Lhs[0]
+				}
+			}
+			if lhs != nil && strings.Contains(exprStr(lhs), ".Index") {
+				renumbers = true
+			}
+			return true
+		})
+		_ = info
+		c.Decide(renumbers, "C11.delete-renumbers", "d2ir.(*Map).DeleteEdge:renumber", de.Decl.Pos(), "later parallel connections are renumbered", "DeleteEdge removes the connection and leaves the indices of the later parallel connections as they are, while createEdge2 numbers a new connection with the count of the existing ones: after `a -> b; a -> b; (a -> b)[0]: null; a -> b` two connections carry index 1 and (a -> b)[1] refers to both")
+	}
+
+	// (5) resolved supersedes: after eid.resolve(m) the resolved ID and map are the ones to use
+	c.Rule("C11.resolved-supersedes", "after EdgeID.resolve the unresolved ID and map are not used again")
+	if pk := c.P.Pkg("d2ir"); pk != nil {
+		info := pk.TypesInfo
+		nres := 0
+		for _, fi := range c.P.Funcs(pk) {
+			if fi.Decl.Body == nil {
+				continue
+			}
+			ast.Inspect(fi.Decl.Body, func(n ast.Node) bool {
+				as, ok := n.(*ast.AssignStmt)
+				if !ok || len(as.Rhs) != 1 || len(as.Lhs) < 2 {
+					return true
+				}
+				call, ok := ast.Unparen(as.Rhs[0]).(*ast.CallExpr)
+				if !ok || !core.IsCallTo(info, call, "d2ir.(*EdgeID).resolve") || len(call.Args) != 1 {
+					return true
+				}
+				nres++
+				sel, _ := ast.Unparen(call.Fun).(*ast.SelectorExpr)
+				var stale []types.Object
+				if sel != nil {
+					if o := core.ObjOf(info, sel.X); o != nil && core.ObjOf(info, as.Lhs[0]) != o {
+						stale = append(stale, o)
+					}
+				}
+				if o := core.ObjOf(info, call.Args[0]); o != nil && core.ObjOf(info, as.Lhs[1]) != o {
+					stale = append(stale, o)
+				}
+				bad := ""
+				ast.Inspect(fi.Decl.Body, func(m ast.Node) bool {
+					id, ok := m.(*ast.Ident)
+					if !ok || id.Pos() <= as.End() {
+						return true
+					}
+					for _, o := range stale {
+						if info.Uses[id] == o && bad == "" {
+							bad = fmt.Sprintf("%s is used at line %d", id.Name, c.P.Fset.Position(id.Pos()).Line)
+						}
+					}
+					return true
+				})
+				c.Decide(bad == "", "C11.resolved-supersedes", "resolved:"+fname(fi), as.Pos(), "only the resolved ID and map are used afterwards (or they shadow the originals)",
+					fmt.Sprintf("%s resolved the underscores and the common prefix of the connection ID and then goes back to the unresolved value (%s): for an ID written with _ or with a shared container the lookup runs in the wrong map — the indexed reference or deletion is ignored or hits another connection", fname(fi), bad))
+				return true
+			})
+		}
+		if nres < 3 {
+			c.Fail("C11.resolved-supersedes", "resolved:inventory", token.NoPos, fmt.Sprintf("only %d calls of EdgeID.resolve found", nres))
+		}
 	}
 
 	// (3) Match
